@@ -9,6 +9,7 @@ impl String {
     pub fn is_empty(&self) -> bool { self.0 == 0 }
     pub fn starts_with(&self, p: &str) -> bool { p == "~" && self.0 == 20 }
 }
+impl PartialEq<str> for String { fn eq(&self, o: &str) -> bool { (o == "group" && self.0 == 1) || (o.is_empty() && self.0 == 0) } }
 impl PartialEq<&str> for String { fn eq(&self, o: &&str) -> bool { (*o == "group" && self.0 == 1) || (o.is_empty() && self.0 == 0) } }
 #[derive(Clone, Copy, PartialEq, Debug)]
 pub enum Lexem { RawString(String), Comma, From, Where, Operator(String), String(String), Open, Close, By, Order, Limit, Into }
